@@ -63,7 +63,11 @@ THEOREMS = ['C05_pot_transform_compl_untouched', 'C05_pot_transform_den',
             'C05_fill_inline_located', 'C05_pipeline_with_lattice_linked',
             'C05_located_through_lattice_linked',
             'C05_precedence_located_linked',
-            'C05_pipeline_with_lattices_linked']
+            'C05_pipeline_with_lattices_linked',
+            'C05_generated_keeps_importance', 'C05_lattice_laws_linked',
+            'C05_pipeline_with_lattices_linked2',
+            'C05_pipeline_with_lattice_linked2',
+            'C05_lattice_elements_accepted_linked']
 
 
 def tie_case_summary(case):
